@@ -55,6 +55,8 @@ var c02Templates = []string{
 	`RS = ""; x = (getline y < "f.csv"); RS = V; x = x (getline z < "f.csv"); close("f.csv"); RS = "\n"`, `FS = "[ ,]+"; $0 = "a b,c"; x = $2; FS = V; $0 = "d e,f"; x = x $2 NF`, `RSTART = V; RLENGTH = V; x = substr("abc", RSTART, RLENGTH)`, `FILENAME = V; x = FILENAME`, `RT = V`,
 	`$0 = huge; x = NF length($1) length()`, `print huge; printf "%s|%5s|%.3s|%c\n", huge, huge, huge, huge`, `x = tolower(huge) toupper(huge); y = substr(huge, V, V) index(huge, "y") index(huge, V)`, `arr[huge] = huge; x = (huge in arr); $2 = huge; $(V) = huge`,
 	`n = split(huge, arr); n = split(huge, arr, "y"); n = split(huge, arr, V)`, `x = huge ""; x = huge + 0; x = (huge < V); x = -huge`, `print huge > "/dev/stdout"; print huge | "cat"; close("cat")`, `s = huge; n = gsub(/y/, V, s); n = sub(/ +/, "&&", s)`,
+	`x = (getline l < "-"); y = close("-"); z = close("-")`, `x = (getline < "-"); print close("-") close("nosuch") close("")`, `x = (getline l < V); y = close(V); z = close(V)`,
+	`print "p" > V; y = close(V); z = close(V); w = fflush(V)`, `y = close(V); w = fflush(V)`, `print "p" | "cat"; y = close("cat"); z = close("cat"); "echo e" | getline l; close("echo e"); close("echo e")`,
 	`INPUTMODE = V`, `OUTPUTMODE = V; print 1, "a,b"`, `x = @V`, `exit V`, `return_(V)`, `x = f2(V, V)`, `x = deep(V)`,
 }
 
